@@ -486,6 +486,23 @@ type hop struct {
 	op  byte   // A R X F M I
 	doc []elem // for A, M
 	raw []byte // optional raw bytes for A (unreadable input)
+	// the unreadable input is a birch document that cannot be encoded (a binary value of subtype 8): it passes
+	// readDocument and is refused only when its elements are walked
+	birchBad bool
+}
+
+func birchBadDoc() *birch.Document {
+	return birch.NewDocument(birch.EC.Int64("x", 1), birch.EC.BinaryWithSubtype("blob", []byte{1, 2, 3}, 8))
+}
+
+// safeAdd: a panic inside Add is reported as a refusal (and shows up as a disagreement with the model)
+func safeAdd(c ftdc.Collector, in interface{}) (err error) {
+	defer func() {
+		if r := recover(); r != nil {
+			err = fmt.Errorf("panic in Add: %v", r)
+		}
+	}()
+	return c.Add(in)
 }
 
 type hcase struct {
@@ -556,7 +573,11 @@ func runHistory(o *out, id int, c hcase) {
 					o.printf("N => ok\n")
 				}
 			} else if h.raw != nil {
-				err = coll.Add(h.raw)
+				if h.birchBad {
+					err = safeAdd(coll, birchBadDoc())
+				} else {
+					err = coll.Add(h.raw)
+				}
 				o.printf("B %s => %s\n", hex.EncodeToString(h.raw), addClass(err))
 			} else {
 				if m, sorted, ok := mapForm(h.doc); ok && nadd%5 == 4 && c.wrapper != "wcoll" {
@@ -565,7 +586,7 @@ func runHistory(o *out, id int, c hcase) {
 					nadd++
 					o.printf("A %s => %s\n", hexDoc(sorted), addClass(err))
 				} else {
-					err = coll.Add(addForm(encDoc(h.doc), nadd, c.wrapper))
+					err = safeAdd(coll, addForm(encDoc(h.doc), nadd, c.wrapper))
 					nadd++
 					o.printf("A %s => %s\n", hexDoc(h.doc), addClass(err))
 				}
